@@ -25,7 +25,10 @@ def _f(it, v):
 
 def _f1(fn):
     def m(it, args, callee, depth):
-        return ("f", fn(*[_f(it, a) for a in args]))
+        try:
+            return ("f", fn(*[_f(it, a) for a in args]))
+        except A.Undecided:
+            return NotImplemented            # symbolic argument: leave it to the ring domain's own model
     return m
 
 
@@ -71,6 +74,240 @@ def m_vec_append(it, args, callee, depth):
     return ("tuple", [])
 
 
+def _seq(it, v):
+    """the element list behind a (reference to a) Vec / slice / array / window"""
+    v = A.deref_all(it, v)
+    if isinstance(v, tuple) and v[0] == "array":
+        return v
+    if v == A.UNKNOWN or v is None:
+        return None
+    raise A.Undecided("sequence operation on %r" % (v,))
+
+
+def m_vec_is_empty(it, args, callee, depth):
+    v = _seq(it, args[0])
+    return NotImplemented if v is None else int(len(v[1]) == 0)
+
+
+def m_vec_clear(it, args, callee, depth):
+    r = _root_ref(it, args[0])
+    it._store(r[1], r[2], list(r[3]), ("array", []))
+    return ("tuple", [])
+
+
+def m_vec_truncate(it, args, callee, depth):
+    r = _root_ref(it, args[0])
+    n = A.deref_all(it, args[1])
+    if not isinstance(n, int):
+        raise A.Undecided("truncate to %r" % (n,))
+    it._store(r[1], r[2], list(r[3]), ("array", _vec(it, r)[:n]))
+    return ("tuple", [])
+
+
+def m_vec_pop(it, args, callee, depth):
+    r = _root_ref(it, args[0])
+    v = _vec(it, r)
+    if not v:
+        return A.NONE
+    it._store(r[1], r[2], list(r[3]), ("array", v[:-1]))
+    return A.some(v[-1])
+
+
+def m_vec_drain(it, args, callee, depth):
+    r = _root_ref(it, args[0])
+    v = _vec(it, r)
+    rg = A.deref_all(it, args[1])
+    lo, hi = 0, len(v)
+    if isinstance(rg, tuple) and rg[0] == "adt" and "ops::range::Range" in rg[1]:
+        kind = rg[1].rsplit("::", 1)[-1]
+        if kind == "Range":
+            lo, hi = rg[3][0], rg[3][1]
+        elif kind == "RangeFrom":
+            lo = rg[3][0]
+        elif kind == "RangeTo":
+            hi = rg[3][0]
+        elif kind != "RangeFull":
+            raise A.Undecided("drain(%s)" % kind)
+    if not (isinstance(lo, int) and isinstance(hi, int)):
+        raise A.Undecided("drain with undecided bounds")
+    if lo > hi or hi > len(v):
+        raise A.Panic("drain range out of bounds")
+    it._store(r[1], r[2], list(r[3]), ("array", v[:lo] + v[hi:]))
+    return ("iter", S.ListIt(v[lo:hi]))
+
+
+def m_slice_first_last(which):
+    def f(it, args, callee, depth):
+        r = args[0]
+        while isinstance(r, tuple) and r[0] == "ref" and isinstance(it.load_ref(r), tuple) and it.load_ref(r)[0] == "ref":
+            r = it.load_ref(r)
+        v = _seq(it, r)
+        if v is None:
+            return NotImplemented
+        n = len(v[1])
+        if which in ("first", "last"):
+            if n == 0:
+                return A.NONE
+            i = 0 if which == "first" else n - 1
+            return A.some(_elem_ref(it, r, v, i))
+        if which in ("split_first", "split_last"):
+            if n == 0:
+                return A.NONE
+            rest = A.Frame(None)
+            idx = list(range(1, n)) if which == "split_first" else list(range(0, n - 1))
+            rest.locals[0] = ("array", [_elem_ref(it, r, v, i) for i in idx], "window")
+            return A.some(("tuple", [_elem_ref(it, r, v, 0 if which == "split_first" else n - 1), ("ref", rest, 0, [])]))
+        return NotImplemented
+    return f
+
+
+def m_slice_get(it, args, callee, depth):
+    r = args[0]
+    while isinstance(r, tuple) and r[0] == "ref" and isinstance(it.load_ref(r), tuple) and it.load_ref(r)[0] == "ref":
+        r = it.load_ref(r)
+    v = _seq(it, r)
+    i = A.deref_all(it, args[1])
+    if v is None or not isinstance(i, int):
+        return NotImplemented
+    return A.some(_elem_ref(it, r, v, i)) if 0 <= i < len(v[1]) else A.NONE
+
+
+def _elem_ref(it, r, v, i):
+    if len(v) > 2 and v[2] == "window":
+        return v[1][i]
+    return ("ref", r[1], r[2], list(r[3]) + [{"ci": i, "ml": 0, "fe": False}])
+
+
+class WindowsIt(S.It):
+    def __init__(self, refs, n, step):
+        self.refs, self.n, self.step, self.pos = refs, n, step, 0
+
+    def next(self, it, depth):
+        if self.pos + self.n > len(self.refs):
+            return None
+        cell = A.Frame(None)
+        cell.locals[0] = ("array", self.refs[self.pos:self.pos + self.n], "window")
+        self.pos += self.step
+        return ("ref", cell, 0, [])
+
+
+def m_windows(chunks):
+    def f(it, args, callee, depth):
+        r = args[0]
+        while isinstance(r, tuple) and r[0] == "ref" and isinstance(it.load_ref(r), tuple) and it.load_ref(r)[0] == "ref":
+            r = it.load_ref(r)
+        v = _seq(it, r)
+        n = A.deref_all(it, args[1])
+        if v is None or not isinstance(n, int):
+            return NotImplemented
+        if n == 0:
+            raise A.Panic("window/chunk size 0")
+        refs = [_elem_ref(it, r, v, i) for i in range(len(v[1]))]
+        return ("iter", WindowsIt(refs, n, n if chunks else 1))
+    return f
+
+
+class FilterIt(S.It):
+    def __init__(self, a, f):
+        self.a, self.f = a, f
+
+    def next(self, it, depth):
+        while True:
+            x = self.a.next(it, depth)
+            if x is None:
+                return None
+            cell = A.Frame(None)
+            cell.locals[0] = x
+            keep = A.deref_all(it, it.invoke(self.f, [("ref", cell, 0, [])], depth))
+            if not isinstance(keep, int):
+                raise A.Undecided("filter predicate returned an undecided value %r" % (str(keep)[:60],))
+            if keep:
+                return cell.locals[0]
+
+
+def m_filter(it, args, callee, depth):
+    return ("iter", FilterIt(S.as_iter(it, args[0]), args[1]))
+
+
+class FilterMapIt(S.It):
+    def __init__(self, a, f):
+        self.a, self.f = a, f
+
+    def next(self, it, depth):
+        while True:
+            x = self.a.next(it, depth)
+            if x is None:
+                return None
+            o = A.deref_all(it, it.invoke(self.f, [x], depth))
+            if not (isinstance(o, tuple) and o[0] == "adt" and o[2] in ("Some", "None")):
+                raise A.Undecided("filter_map closure returned %r" % (str(o)[:60],))
+            if o[2] == "Some":
+                return o[3][0]
+
+
+def m_filter_map(it, args, callee, depth):
+    return ("iter", FilterMapIt(S.as_iter(it, args[0]), args[1]))
+
+
+def m_to_bits(it, args, callee, depth):
+    import struct
+    v = A.deref_all(it, args[0])
+    if isinstance(v, tuple) and v[0] == "f":
+        return struct.unpack("<I", struct.pack("<f", v[1]))[0]
+    try:
+        # a sum / product of constants that is not exactly representable stays an expression: its bit pattern is that of the rounded value
+        return struct.unpack("<I", struct.pack("<f", S.num_eval(v, {})))[0]
+    except (S.NotNumeric, OverflowError, struct.error):
+        return NotImplemented
+
+
+def m_abs_any(it, args, callee, depth):
+    v = A.deref_all(it, args[0])
+    if isinstance(v, tuple) and v[0] == "f":
+        return ("f", abs(v[1]))
+    return S.m_abs(it, args, callee, depth)
+
+
+class SkipIt(S.It):
+    def __init__(self, a, n):
+        self.a, self.n = a, n
+
+    def next(self, it, depth):
+        while self.n > 0:
+            self.n -= 1
+            if self.a.next(it, depth) is None:
+                return None
+        return self.a.next(it, depth)
+
+
+def m_skip(it, args, callee, depth):
+    n = A.deref_all(it, args[1])
+    if not isinstance(n, int):
+        raise A.Undecided("skip(%r)" % (n,))
+    return ("iter", SkipIt(S.as_iter(it, args[0]), n))
+
+
+def m_mem_swap(it, args, callee, depth):
+    a, b = args[0], args[1]
+    if not (isinstance(a, tuple) and a[0] == "ref" and isinstance(b, tuple) and b[0] == "ref"):
+        raise A.Undecided("mem::swap through %r / %r" % (a, b))
+    va, vb = it.load_ref(a), it.load_ref(b)
+    it._store(a[1], a[2], list(a[3]), vb)
+    it._store(b[1], b[2], list(b[3]), va)
+    return ("tuple", [])
+
+
+def m_mem_take(it, args, callee, depth):
+    a = args[0]
+    if not (isinstance(a, tuple) and a[0] == "ref"):
+        raise A.Undecided("mem::take through %r" % (a,))
+    va = it.load_ref(a)
+    if isinstance(va, tuple) and va[0] == "array":
+        it._store(a[1], a[2], list(a[3]), ("array", []))
+        return va
+    return NotImplemented
+
+
 class FlatMapIt(S.It):
     def __init__(self, a, f):
         self.a, self.f, self.cur = a, f, None
@@ -113,11 +350,47 @@ def m_copied(it, args, callee, depth):
     return ("iter", CopiedIt(S.as_iter(it, args[0])))
 
 
+def m_deref(it, args, callee, depth):
+    """Deref::deref / DerefMut::deref_mut on a reference-like value: `&mut &mut [T]` -> the inner reference; on an owning
+    container modelled as an array (Vec) -> a reference to its contents"""
+    r = args[0]
+    if isinstance(r, tuple) and r[0] == "ref":
+        inner = it.load_ref(r)
+        if isinstance(inner, tuple) and inner[0] == "ref":
+            return inner
+        if isinstance(inner, tuple) and inner[0] == "array":
+            return r
+    return NotImplemented
+
+
 MODELS = {
+    "core::ops::deref::DerefMut::deref_mut": m_deref,
+    "core::ops::deref::Deref::deref": m_deref,
+    "$slice::<impl [T]>::len": S.m_len,
     "alloc::vec::Vec::<T>::new": m_vec_new,
     "alloc::vec::Vec::<T>::with_capacity": m_vec_new,
     "alloc::vec::Vec::<T, A>::push": m_vec_push,
     "alloc::vec::Vec::<T, A>::append": m_vec_append,
+    "alloc::vec::Vec::<T, A>::is_empty": m_vec_is_empty,
+    "$slice::<impl [T]>::is_empty": m_vec_is_empty,
+    "alloc::vec::Vec::<T, A>::clear": m_vec_clear,
+    "alloc::vec::Vec::<T, A>::truncate": m_vec_truncate,
+    "alloc::vec::Vec::<T, A>::pop": m_vec_pop,
+    "alloc::vec::Vec::<T, A>::drain": m_vec_drain,
+    "$slice::<impl [T]>::get": m_slice_get,
+    "$slice::<impl [T]>::get_mut": m_slice_get,
+    "$slice::<impl [T]>::first": m_slice_first_last("first"),
+    "$slice::<impl [T]>::last": m_slice_first_last("last"),
+    "$slice::<impl [T]>::split_first": m_slice_first_last("split_first"),
+    "$slice::<impl [T]>::split_last": m_slice_first_last("split_last"),
+    "$slice::<impl [T]>::windows": m_windows(False),
+    "$slice::<impl [T]>::chunks": m_windows(True),
+    "$slice::<impl [T]>::chunks_exact": m_windows(True),
+    "Iterator::skip": m_skip,
+    "Iterator::filter_map": m_filter_map,
+    "Iterator::filter": m_filter,
+    "core::mem::swap": m_mem_swap,
+    "core::mem::take": m_mem_take,
     "core::iter::traits::collect::Extend::extend": m_vec_extend,
     "Iterator::flat_map": m_flat_map,
     "Iterator::flatten": m_flatten,
@@ -128,7 +401,8 @@ MODELS = {
     "f32>::sqrt": _f1(math.sqrt),
     "f32>::sin": _f1(math.sin),
     "f32>::cos": _f1(math.cos),
-    "f32>::abs": _f1(abs),
+    "f32>::abs": m_abs_any,
+    "f32>::to_bits": m_to_bits,
     "f32>::recip": _f1(lambda x: 1.0 / x),
     "f32>::powf": _f1(lambda x, y: x ** y),
     "f32>::powi": _f1(lambda x, n: x ** int(n)),
